@@ -14,9 +14,12 @@ RULE = ('a faulty carrier — a file with a lexical or a syntax error, or a decl
         'placement, order)')
 
 LOCAL_KINDS = {'struct-dup-element', 'subrange-min-gt-max', 'subrange-min-eq-max', 'enum-dup-value', 'const-no-init',
-               'undefined-var-rhs', 'undefined-var-target', 'task-undefined', 'fb-self-instance', 'const-fb',
+               'undefined-var-rhs', 'undefined-var-target', 'undefined-var-subscript', 'task-undefined', 'fb-self-instance', 'const-fb',
                # a name declared twice is a fault of the set wherever the two declarations stand (same file, two files, copies word for word)
                'dup-verbatim-adjacent', 'dup-pou-name', 'dup-type-name'}
+# a construct the analyzer answers with P9999 "not implemented" (an initialised simple type): its answer ends the analysis
+# early, but it is an answer of failure - it must not turn a faulty set into an accepted one
+UNSUPPORTED_TEXT = 'TYPE\n  N7950 : INT := 5;\nEND_TYPE\n'
 BAD_TEXTS = {'lexical': 'PROGRAM N7001\nVAR N7002 : INT; END_VAR\nN7002 := ? 1;\nEND_PROGRAM\n',
              'syntax': 'PROGRAM N7003\nVAR N7004 : INT END_VAR\nEND_PROGRAM\n',
              'unclosed-comment': 'PROGRAM N7005\nEND_PROGRAM\n(* never closed\n'}
@@ -29,12 +32,14 @@ def offset_decl(d, off):
     def v(x): return dict(x, name=n(x['name']), ty=ty(x['ty']), init=(n(x['init']) if isinstance(x['ty'], tuple) and x['init'] is not None else x['init']))
     def st(s):
         if s[0] == 'a': return ('a', n(s[1]), [n(r) for r in s[2]])
+        if s[0] == 's': return ('s', n(s[1]), n(s[2]), n(s[3]))
         return ('c', n(s[1]), [(n(a), n(b)) for a, b in s[2]], [n(p) for p in s[3]], [(n(a), n(b)) for a, b in s[4]])
     k = d[0]
     if k == 'E': return ('E', n(d[1]), [n(x) for x in d[2]], n(d[3]))
     if k == 'A': return ('A', n(d[1]), n(d[2]))
     if k == 'S': return ('S', n(d[1]), [(n(e[0]), ty(e[1])) + ((n(e[2]),) if len(e) > 2 else ()) for e in d[2]])
     if k == 'R': return ('R', n(d[1]), d[2], d[3])
+    if k == 'T': return ('T', n(d[1]), d[2])
     if k in 'FUP': return (k, n(d[1]), [v(x) for x in d[2]], [st(s) for s in d[3]])
     return ('C', n(d[1]), [v(x) for x in d[2]], [n(t) for t in d[3]], [(n(i), n(t), n(p)) for i, t, p in d[4]])
 
@@ -93,6 +98,16 @@ def run(ctx):
                 for order in orders:
                     fl = [files[i] for i in order]
                     cases.append({'fault': fk, 'mode': mode, 'reuse': reuse, 'files': fl})
+                if not reuse:
+                    # the same set accompanied by a file with a construct the analyzer does not implement (P9999), first and last
+                    fl = [files[i] for i in orders[0]]
+                    cases.append({'fault': fk, 'mode': mode, 'reuse': 'with-unsupported', 'files': ['Y:unsupported'] + fl, 'nomodel': True})
+                    cases.append({'fault': fk, 'mode': mode, 'reuse': 'with-unsupported', 'files': fl + ['Y:unsupported'], 'nomodel': True})
+            if mode == 'decl' and not fk.startswith('dup-'):
+                # the smallest sets (a duplicate is two declarations: not a fault of one declaration alone): the faulty declaration alone in the set, and alone with one valid declaration
+                faulty = next((d for d, b in zip(single[2], base) if d != b), single[2][-1])
+                cases.append({'fault': fk, 'mode': mode, 'reuse': 'alone', 'files': [[faulty]], 'nomodel': True})
+                cases.append({'fault': fk, 'mode': mode, 'reuse': 'alone+1', 'files': [[faulty], [('R', 7160, 1, 2)]], 'nomodel': True})
     # monotonicity: a failing set plus further valid files
     mono = []
     for trial in range(10 if ctx.quick() else 100):
@@ -118,7 +133,9 @@ def run(ctx):
         vary = rng.random() < 0.34
         out = []
         for f in c['files']:
-            if isinstance(f, str):
+            if isinstance(f, str) and f[0] == 'Y':
+                out.append(UNSUPPORTED_TEXT)
+            elif isinstance(f, str):
                 t = BAD_TEXTS[f[2:]]
                 if deco:
                     t = units.oscat_header(rng) + t
@@ -137,7 +154,8 @@ def run(ctx):
         return units.enc_unit(['X' if isinstance(f, str) else f for f in c['files']])
     for c in cases: c['texts'] = texts(c)
     impl = core.run_lines(core.VH, ['project ' + names_arg(c) + ' '.join(core.hexs(t) if t else '-' for t in c['texts']) for c in cases], jobs=12)
-    model = core.run_lines(core.PLCDRV, [enc(c) for c in cases], jobs=12) if ctx.model_available else [None] * len(cases)
+    model = core.run_lines(core.PLCDRV, ['noop' if c.get('nomodel') else enc(c) for c in cases], jobs=12) if ctx.model_available else [None] * len(cases)
+    model = [None if c.get('nomodel') else m for c, m in zip(cases, model)]
     # the same sets reached through an edit history of the project (analyse, change one document, analyse again):
     # the result must be the one of the fresh project (a cached parse or verdict must not survive the edit)
     hx = lambda t: core.hexs(t) if t else '-'
